@@ -62,6 +62,13 @@ func scenarioExprsW(thorough bool, wf int) []string {
 		// expressions Compile rejects (the one-shot Search must reject them on every document as well): letters
 		// and digits outside ASCII that a Unicode-aware shortcut would take for an identifier, and plain syntax errors
 		"größe", "名前", "a١", "é", "ǅ", "a b", "a.", "[0", "1a", "a=b", "'unclosed",
+		// two call sites of a variadic function with different argument counts; which one runs depends on the
+		// document (per-interpreter signature or arity caches must not carry over from one call to the next)
+		"a.b && not_null(a, b, c) || not_null(b)", "a.b && not_null(b) || not_null(a, b, c)", "[not_null(a, b, c), not_null(a)]", "a.b && merge(@, @, @) || merge(@)", "not_null(a.b, a, b) | not_null(@)",
+		"a.b && abs(b) || abs(b, b)", "a.b && length(a, a) || length(a)", "a[0] && max_by(a, &k) || max_by(a)",
+		// nested calls whose inner call fails on some documents and succeeds on others (error paths must
+		// release whatever the successful path releases)
+		"length(to_string(abs(b)))", "sum(map(&abs(k), a))", "length(to_array(ceil(b)))", "to_string(length(sort(b)))", "not_null(abs(b), length(a))", "max(map(&abs(@), a))", "abs(abs(abs(b)))", "length(keys(merge(a, a)))",
 		"sort_by(a, &k) | sort_by(@, &t)", "sort_by(sort_by(a, &k), &t)", "a[*].sort(@)", "[sort_by(a, &k), a]", "sort_by(a, &k)[0].k",
 	} {
 		add(s)
@@ -98,6 +105,16 @@ func scenarioExprsW(thorough bool, wf int) []string {
 	cw := 3
 	if thorough {
 		cw = 4
+	}
+	// negations, logical operators and comparators over fields: a Compile-time simplification (De Morgan,
+	// comparator inversion, double negation) must agree with what the one-shot Search evaluates
+	if withConstants {
+		g := univ.NewGen(univ.LogicFragment())
+		for w := 1; w <= cw+2; w++ { // weight 5 (thorough 6): "!(a < b)", "!(!a || b)", "(a || b) && c", ...
+			for _, s := range g.Sentences(w) {
+				add(model.Spell(g.Tokens(s), model.Tight))
+			}
+		}
 	}
 	for _, fr := range []*univ.Fragment{univ.CoreFragment(), univ.ProjFragment()} {
 		g := univ.NewGen(fr)
@@ -213,6 +230,8 @@ var parserAlphabet = []string{
 	"[0:5]", "a[::2]", "a[1:3] | [0:5]", "a[-1:]",
 	"1", "007", "1a", "0", "9_lives", " 1a", "aZ", "AZx", "a.Z9",
 	"`[\"a\", \"b\"]`", "{x: `[1, 2]`, y: `{\"k\": [3]}`}", "a | `[1, [2]]`[1]", "`{\"k\": {\"j\": 1}}`.k", "[`[1]`, `[1]`]",
+	// callee shapes: what stands before "(" and where the last plain identifier of the PREVIOUS expression ended
+	`("a")(x)`, "(a)(x)", `"a"(x)`, "a.b(x)", "a.b.c", "x.f(y)", `a.b | ("c")(d)`, "'f'(x)", "@.a", "[a](b)", "{a: b}(c)", "a.b.c.d", "f(x)", "a.f(x).g(y)", `(("a"))(x)`, "f (x)", "a . b", `"a"."b"("c")`,
 	"a = b", "a.b.c.d.e.f.g ? h", "a[1:2:3:4]", "@(a)", "a b", "a ]", "(a", "a)", "[-]", "a[99999999999999999999]", "!", "&", "a.'x'", "a\u0080", "\xff", "a | ", "[?a",
 }
 
@@ -710,6 +729,60 @@ func workC13(c *shardCtx) {
 	} else {
 		c.res.Capped = "fresh-process references missing; process-global history pass skipped"
 	}
+	// ---------- many DISTINCT expressions through the package-level entry points, then the early, middle and
+	// late ones again (a bounded expression cache: eviction, slot reuse, stale index entries). N ranges over a
+	// fixed list of sizes plus every integer literal of the current tree with its neighbours.
+	mkExpr := func(round, i int) (string, string) {
+		switch i % 3 {
+		case 0:
+			return fmt.Sprintf("`%d`", round*1000003+i), "VALUE " + model.Canon(float64(round*1000003+i))
+		case 1:
+			return fmt.Sprintf("'s%d_%d'", round, i), fmt.Sprintf("VALUE \"s%d_%d\"", round, i)
+		}
+		return fmt.Sprintf("[`%d`, 's%d'][0]", round*1000003+i, i), "VALUE " + model.Canon(float64(round*1000003+i))
+	}
+	for ni, n := range harness.Sizes([]int{8, 100, 300, 1000, 1025, 2049, 4097}, 4, 70000) {
+		if !c.mine(ni) {
+			continue
+		}
+		c.journal(fmt.Sprintf("C13 %d distinct expressions", n))
+		check := func(mode string, i int) {
+			x, want := mkExpr(ni+1, i)
+			var got string
+			if mode == "search" {
+				res, err, pn := impl.SearchOnce(x, 0.0)
+				got = resKey(res, err, pn)
+			} else {
+				jp, cerr, cpn := impl.Compile(x)
+				if cerr != nil || cpn != nil {
+					got = fmt.Sprint("Compile failed: ", cerr, cpn)
+				} else {
+					res, err, pn := impl.Search(jp, 0.0)
+					got = resKey(res, err, pn)
+				}
+			}
+			c.add("distinct_expression_calls", 1)
+			if got != want {
+				c.report(harness.Violation{Kind: "wrong-value", Signature: fmt.Sprintf("history-dependent-after-many-expressions:%s", mode),
+					Input:    map[string]interface{}{"operation": mode, "expression": x, "distinct_expressions_used_before_in_this_process": n, "position_of_this_expression": i},
+					Expected: want, Observed: got})
+			}
+		}
+		for i := 0; i < n; i++ {
+			check("search", i)
+			if i%7 == 0 {
+				check("compile", i)
+			}
+		}
+		for _, i := range []int{0, 1, 2, 3, n / 2, n/2 + 1, n - 3, n - 2, n - 1, 5, 7} {
+			if i >= 0 && i < n {
+				check("search", i)
+				check("compile", i)
+				check("search", i)
+			}
+		}
+		c.add("distinct_expression_histories", 1)
+	}
 	c.res.Notes["history_documents"] = len(historyDocs)
 	c.res.Notes["expression_universe"] = len(exprs)
 	// ---------- "the same every time, up to the unspecified member order": every sequence of map orders
@@ -739,6 +812,9 @@ func finishC13(r *harness.Run, k map[string]int64, notes map[string]interface{})
 	r.Note("parser_states", k["parser_states"])
 	r.Note("parser_histories_replayed", k["parser_histories"])
 	r.Note("process_global_call_sequences", k["global_histories"])
+	r.Note("distinct_expression_histories", fmt.Sprintf("%d histories of N distinct one-shot expressions (N from 4 to 70000: a fixed list plus the integer literals of the tree and their neighbours) followed by the early, middle and late ones again: %d calls", k["distinct_expression_histories"], k["distinct_expression_calls"]))
+	r.Evaluations += k["distinct_expression_calls"]
+	r.Traces += k["distinct_expression_histories"]
 	r.Note("map_order_exploration", fmt.Sprintf("%d (expression, document) pairs, %d executions over %d map-order requests, %d pairs explored without deviation bound, %d pairs with more than one admissible outcome observed", k["maporder_pairs"], k["maporder_executions"], k["maporder_requests"], k["maporder_pairs_explored_without_bound"], k["maporder_pairs_with_several_outcomes"]))
 	r.Evaluations += k["maporder_executions"]
 	r.Traces += k["maporder_executions"]
